@@ -21,7 +21,7 @@ def run(tier):
     c.add_tlc(pg, "polygon test: Mech (winding-number code) = Prop on every simple polygon x probe")
     beh += pg.behaviours
     beh = list(dict.fromkeys(beh))
-    for key in ('"great-circle"', '"roundtrip"', '"kdtree"', '"bezier"', '"polygon'):
+    for key in ('"great-circle"', '"roundtrip"', '"kdtree"', '"bezier"', '"polygon', '"bezier-zigzag"'):
         if not any(key in b[:80] for b in beh): raise tlc.SetupError("no %s behaviours were emitted" % key)
     res = replay.replay(exe, beh, shards=16, timeout_s=300)
     c.add_replay(res, "direct kernel calls")
@@ -34,9 +34,10 @@ def run(tier):
     c.coverage["rule"] = ("kd-tree: all sets of 1..MaxPts lattice points (4x4 lattice) x all 81 doubled-lattice queries on the real tree; polygon: "
                           "all simple polygons with 3..MaxV vertices x 81 probes through Utilities::polygon_contains_point; great circle: all 676 "
                           "ordered pairs of the 26 directions with coordinates in {-1,0,1} (angles 0..180 degrees); Bezier: all polylines with 2..BMax "
-                          "points on the lattice whose bends are <= 60 degrees x 9 query points around every coordinate vs a dense brute-force "
+                          "points on the lattice whose bends are <= 60 degrees x 9 query points around every coordinate and a coarse grid of far query points vs a dense brute-force "
                           "sample; round trip on 129 points incl. axis and near-dateline points. non-trivial = distinct inputs (all)")
     c.assumptions += ["Bezier: 'noticeably closer' = closer by more than 1e-6 x longest segment + 1 mm (+ sampling error) over 400/2000 samples per segment; "
-                      "a missing foot (infinite distance) is accepted: query points near the ends of a curve may have their foot outside it",
+                      "a missing foot (infinite distance) is accepted: query points near the ends of a curve may have their foot outside it; for query points "
+                      "up to two lattice units (200 km) outside the lattice region 'noticeably' also allows 0.5 % of the distance",
                       "great-circle tolerance 1e-6 R (acos is ill-conditioned near 0 and 180 degrees)"]
     return c.finish()
